@@ -124,3 +124,5 @@ def crash_sig(case, ex, where, tb):
     if cfg["automatic"] and not cfg["boundary"] and isinstance(ex, AssertionError):
         return "extsplit_crash:automatic_extend_split_without_boundary_points:%s" % where.split(":")[-1]
     return None
+
+RULE += (" " + 'In half of the histories no monitor query happens between the last call on the fixed point list before a refinement and the first after it; evaluation lists contain repeated points; integer-valued functions; typed / integer domains.')
